@@ -1,7 +1,10 @@
 (* Props/C08.v — "What the mempool validated is what the block yields": statements only. *)
 From ChiaV.Base Require Import Bytes.
 From ChiaV.Clvm Require Import Sexp Ints.
-From ChiaV.Bundle Require Import SolutionGen SexpProofs SolutionGenProofs.
+From ChiaV.Clvm Require Import TreeHash.
+From ChiaV.Gen Require Import Opcodes Builder.
+From ChiaV.Cond Require Import Model.
+From ChiaV.Bundle Require Import SolutionGen Interned SpendBundle BlockPath SexpProofs SolutionGenProofs AgreeProofs.
 Open Scope N_scope.
 
 (* (1) the plain serializer is inverted by the plain deserializer, for every tree it can serialize
@@ -25,9 +28,41 @@ Theorem C08_length_nonvacuous :
   let s := {| cs_parent := repeat_byte 32 x07; cs_ph := []; cs_amount := 2 ^ 63;
               cs_puzzle := [xff; x01; x80]; cs_solution := [x80] |} in
   Forall plain_spend [s] /\ option_map nlen (solution_generator [s]) = Some 58.
-Proof.
-  split.
-  - constructor; [|constructor]. split; [exists (Pair (Atom [x01]) nil); reflexivity|].
-    split; [exists nil; reflexivity|]. split; [reflexivity|]. cbn. lia.
-  - vm_compute. reflexivity.
-Qed.
+Proof. exact length_nonvacuous. Qed.
+
+(* (2),(3) mempool path = block path, plain generator, non-interned mode.
+   FULL STATEMENT (not proved): for every bundle b satisfying the hypotheses, [mempool_path b] and the block path on
+   ser (build_generator b) agree.  PROVED: the same with the mempool path run on the REVERSED bundle — build_generator
+   lists the spends in reverse, and both paths then process the same spends in the same order.  Missing for the full
+   statement: permutation invariance of the spend loop (property C06, unit cond), and the INTERNED_GENERATOR mode
+   (there the base costs are equal for the same bundle, C08_interned_base_cost, but not obviously for the reversed one).
+   Hypotheses: reveals/solutions are plain serializations, 32-byte parents, u64 amounts, declared puzzle hash = tree
+   hash ([good_spend]); the oracle evaluates the generator's quote to its argument at cost 20; at most
+   MAX_SPENDS_PER_BLOCK spends.  [mempool_path] = run_spendbundle under DONT_VALIDATE_SIGNATURE, else
+   validate_clvm_and_signature.  [same_summary o b m]: equal up to the two mempool-only flag bits, cost_b = cost_m + o,
+   execution_cost_b = execution_cost_m + 20, same (key, message) pairs. *)
+Theorem C08_agree_rev_partial : forall valid_key (H : bytes -> bytes) K run sig_ok cpb fl gen_args,
+  (forall x args budget,
+     run (Pair (Atom [x01]) x) args budget = if budget <? 20 then Err CostExceeded else Ok (20, x)) ->
+  forall spends g program max_cost,
+  Forall (good_spend H) spends ->
+  bf_interned fl = false ->
+  N.of_nat (length spends) <= MAX_SPENDS_PER_BLOCK ->
+  build_generator spends = Some g -> ser g = Some program ->
+  match mempool_path valid_key H K run sig_ok cpb fl (rev spends) max_cost,
+        run_block_generator2 valid_key H K run sig_ok cpb fl gen_args program (nlen program) (max_cost + overhead cpb) with
+  | Ok m, Ok b => same_summary (overhead cpb) b m
+  | Err _, Err _ => True
+  | _, _ => False
+  end.
+Proof. exact agree_rev. Qed.
+
+(* the fixed wrapper overhead, over the translated QUOTE_BYTES *)
+Theorem C08_overhead_value : forall cpb, overhead cpb = 20 + 2 * cpb.
+Proof. exact overhead_value. Qed.
+
+(* INTERNED_GENERATOR: the mempool path charges the interned size of the very tree the block path decodes *)
+Theorem C08_interned_base_cost : forall cpb fl spends g program,
+  bf_interned fl = true -> build_generator spends = Some g -> ser g = Some program ->
+  calculate_base_cost cpb fl spends = Ok (interned_vbytes g * cpb) /\ parse_node program = Ok g.
+Proof. exact interned_base_cost. Qed.
